@@ -26,7 +26,7 @@ func (c *Chain) Clone() *Chain {
 	for k, v := range c.CtxBytes {
 		n.CtxBytes[k] = v
 	}
-	n.React = map[int][2]string{}
+	n.React = map[int]Reaction{}
 	for k, v := range c.React {
 		n.React[k] = v
 	}
@@ -270,6 +270,10 @@ func ExploreConfigs() map[string]*ExploreCfg {
 			RResp: "kill", RState: "kill"},
 			Ev{Name: "ModCreate", Signer: "c2", Svc: "s1", Provs: []string{"p2"}, Cap: 10, Timeout: 1, Rep: true, Freq: 2, Total: -1, Thr: 1,
 				RResp: "pause", RState: "kill"}, eb(1)),
+		"siblings": lc("siblings", 4, Ev{Name: "ModCreate", Signer: "c1", Svc: "s1", Provs: []string{"p1", "p2"}, Cap: 10, Timeout: 2, Rep: true, Freq: 2, Total: 3, Thr: 1,
+			RResp: "start", RState: "pause", RTgt: 2},
+			Ev{Name: "ModCreate", Signer: "c1", Svc: "s1", Provs: []string{"p2"}, Cap: 10, Timeout: 1, Rep: true, Freq: 2, Total: -1, Thr: 1,
+				RResp: "kill", RState: "cap1", RTgt: 1}, eb(1)),
 		"params": {Name: "params", MaxDepth: 4, MaxCtx: 2, MaxH: 9, Alphabet: paramsAlphabet,
 			Reset: Ev{Name: "reset", RParams: p, Tag: "explore-params", RBal: bal, RInit: append(append([]Ev{}, reg...), repCall, eb(1))}},
 		"binding": {Name: "binding", MaxDepth: 5, MaxCtx: 0, MaxH: 3, Alphabet: bindingAlphabet,
